@@ -501,7 +501,7 @@ def _keygen(func, ignored, /, *args, **kwds):
     #XXX: better if user_kwds always include NAMES/INDEX from ignored?  MAYBE.
    #user_kwds.update(dict([(k,NULL) for k in names_to_ignore])) #(see above)
     _keys = tuple(user_kwds.keys()) + explicitly_named
-    user_kwds.update(dict([(k,NULL) for k in names_to_ignore if k in _keys]))
+    user_kwds.update(dict([(k,NULL) for k in _keys if k in names_to_ignore])) # in the order of _keys: iterating the set made the key depend on the hash seed
     # if ignoring **kwds, then pop all not in explicitly_named
     # (keyword-only arguments are parameters, not members of **kwds)
     if varkwds_to_ignore:
